@@ -84,6 +84,14 @@ type netlab struct {
 	stamps  []int64 // kernel receive timestamp of each frame (SO_TIMESTAMPNS, ns since the epoch)
 	stop    chan struct{}
 	done    chan struct{}
+
+	// sentinel frames (EtherType 0x88b5, local experimental) sent out of veth0 by the harness itself: once the
+	// capture has seen sentinel k, every frame that left veth0 before it has been captured too, however far
+	// behind the capture goroutine was (a loaded machine)
+	txfd     int
+	txif     int
+	sentSeq  uint64
+	seenSeq  uint64
 }
 
 func newNetlab() *netlab {
@@ -113,6 +121,11 @@ func newNetlab() *netlab {
 	syscall.SetsockoptTimeval(fd, syscall.SOL_SOCKET, syscall.SO_RCVTIMEO, &tv)
 	n := &netlab{fd: fd, ifindex: ifi.Index, srcMAC: net.HardwareAddr{2, 0, 0, 0, 0, 1},
 		stop: make(chan struct{}), done: make(chan struct{})}
+	if ifi0, err := net.InterfaceByName("veth0"); err == nil {
+		if tx, err := syscall.Socket(syscall.AF_PACKET, syscall.SOCK_RAW, int(htons(syscall.ETH_P_ALL))); err == nil {
+			n.txfd, n.txif = tx, ifi0.Index
+		}
+	}
 	go n.capture()
 	// let the link settle
 	time.Sleep(100 * time.Millisecond)
@@ -145,6 +158,14 @@ func (n *netlab) capture() {
 					stamp = sec*1e9 + nsec
 				}
 			}
+		}
+		if k >= 22 && buf[12] == 0x88 && buf[13] == 0xb5 {
+			n.mu.Lock()
+			if q := binary.BigEndian.Uint64(buf[14:22]); q > n.seenSeq {
+				n.seenSeq = q
+			}
+			n.mu.Unlock()
+			continue
 		}
 		f := make([]byte, k)
 		copy(f, buf[:k])
@@ -199,12 +220,42 @@ func (n *netlab) close() {
 
 // settle waits until no new frame has arrived for `quiet`
 func (n *netlab) settle(quiet time.Duration) {
+	n.flush()
 	last := n.count()
 	t := time.Now()
 	for time.Since(t) < quiet {
 		time.Sleep(5 * time.Millisecond)
 		if c := n.count(); c != last {
 			last, t = c, time.Now()
+		}
+	}
+}
+
+// flush sends a sentinel out of veth0 and waits until the capture has seen it
+func (n *netlab) flush() {
+	if n.txfd == 0 {
+		return
+	}
+	n.mu.Lock()
+	n.sentSeq++
+	q := n.sentSeq
+	n.mu.Unlock()
+	f := make([]byte, 60)
+	copy(f[0:6], []byte{0xff, 0xff, 0xff, 0xff, 0xff, 0xff})
+	copy(f[6:12], []byte{2, 0, 0, 0, 0, 0xfd})
+	f[12], f[13] = 0x88, 0xb5
+	binary.BigEndian.PutUint64(f[14:22], q)
+	deadline := time.Now().Add(15 * time.Second)
+	for time.Now().Before(deadline) {
+		syscall.Sendto(n.txfd, f, 0, &syscall.SockaddrLinklayer{Ifindex: n.txif, Halen: 6})
+		for i := 0; i < 40; i++ {
+			n.mu.Lock()
+			ok := n.seenSeq >= q
+			n.mu.Unlock()
+			if ok {
+				return
+			}
+			time.Sleep(5 * time.Millisecond)
 		}
 	}
 }
